@@ -68,7 +68,7 @@ Definition conv_guardian_set (c : gcfg) (e : genv) (guardians : list bytes) : gr
   match gs_loop guardians [] with
   | GErr x => GErr x
   | GPanic => GPanic
-  | GOk addrs => with_payload c e (ser_GuardianSetUpgrade addrs ((e_gsi e + 1) mod 4294967296))   (* uint32 guardianSetIndex + 1 *)
+  | GOk addrs => with_payload c e (ser_GuardianSetUpgrade addrs (go_adm_new_index (e_gsi e)))   (* generated: uint32 guardianSetIndex + 1 *)
   end.
 
 (* ------------------------------------------------------------------ the other eight *)
